@@ -1033,20 +1033,6 @@ def modelled(x):
     return not has_raw(x) and classes_of(x) <= set(COQ_CLS)
 
 
-def model_is_pinned_here(x):
-    """Pat/Step.v (shared, not ours to edit) still describes the pinned PLoop / PPingPong on inputs of fewer than two
-    values (IndexError); the repository has the repairs df58231 / 4481cf5: such shapes are not compared with the model"""
-    for _, n in nodes(x):
-        if isinstance(n, E) and n.cls in ("PLoop", "PPingPong"):
-            try:
-                s = ref(n.args[0])
-            except Exception:
-                return True
-            if s.done and len(s.v) < (1 if n.cls == "PLoop" else 2):
-                return True
-    return False
-
-
 def check(run):
     rng = run.rng
     thorough = run.tier == "thorough"
@@ -1145,9 +1131,6 @@ def check(run):
     run_impl(run, extra)
     for c in extra:
         run.count(); run.dist("stream.registry")
-    for c in mc + extra:
-        if model_is_pinned_here(c.expr):
-            c.status = "model describes the pinned PLoop/PPingPong on short inputs"
     run_model(run, mc + extra)
     for c in mc + extra:
         if c.verdict == "discard":
